@@ -52,6 +52,38 @@ declares parameters named like those of the enclosing / top / another
 function.  Every declared occurrence is a control of its own: its own slots,
 its own sink wiring and its own name-table entry pointing at its own slot
 (multiset comparison; variants only address names declared once).
+
+Shared argument objects (shards 'shared', vf/c04_gen.gen_session) - the class
+"the ARGUMENTS of a build are objects of the caller that outlive the build":
+a session is 2-4 plain programs of DIFFERENT signatures built one after the
+other in one process, by the constructor with keyword arguments, the
+constructor with positional arguments or the synthdef decorator, and ONE
+rates list object is handed to 2-5 function entries (top functions and / or
+SynthDef.wrap calls, of one build or of several builds) whose functions have
+different numbers of parameters - the list shorter than, as long as or
+longer than each of them, the shorter function first or the longer one
+first; likewise one prepend list, one variants dict (inner dicts and value
+lists included), one metadata dict with its spec objects, and one tuple that
+is the default of parameters of several functions.  The expectation of every
+build is the model's layout for the program DESCRIPTION, i.e. for the value
+every object had before its first use (the run-time objects are created once
+from deep copies of the descriptions); so a build that silently depends on
+what an earlier build did to an argument object - entries cut, consumed,
+renamed, normalised away - is refuted by the ordinary monitors.  After every
+build (construction, as_bytes, call) every object is compared with the
+snapshot taken before its first use:
+  C04/argument-object-changed/<rates-list|prepend-list|variants-dict|
+      metadata-dict>/<how>   the object no longer MEANS what it meant (for a
+      rates list None, 0, 0.0 and a missing trailing entry mean the same:
+      the unchanged library pads the caller's list with zeros, which no later
+      build can observe - counted, not reported; same for a variant value
+      turned into a one element list or further metadata keys); the later
+      builds of the session that came out wrong are listed in the witness
+  C04/shared-argument-objects/<damage>   a build is wrong after earlier
+      builds used the same objects, right when repeated alone with fresh
+      equal objects, and no object changed (state kept elsewhere, e.g. per
+      list object)
+A violation that the repeated, history-free build shows too keeps its key.
 """
 
 from vf.common import iter_cases, case_rng, h64, split, short_tb, tb_sites
@@ -68,7 +100,12 @@ RULE = ("seeded random programs: 0-40 parameters over 1-4 functions (wrap "
         "rejected for its signature and recovered, 18 % with 1-2 wrapped "
         "functions whose body raises after their controls exist (user / "
         "library exception, handled 0-3 wrap levels up, fallback or retry, "
-        "further wraps).  Non-trivial: at "
+        "further wraps); shards 'shared': sessions of 2-4 such programs "
+        "(without the failure features) of different signatures built in "
+        "one process by constructor (keyword / positional) or decorator and "
+        "handed the same rates list / prepend list / variants dict / "
+        "metadata dict / default tuple objects, in random order of shorter "
+        "and longer functions.  Non-trivial: at "
         "least two rate groups plus an array control, a lag, a wrap or a "
         "prepend; distinct = hash of the program description")
 ASSUMPTIONS = [
@@ -85,6 +122,14 @@ ASSUMPTIONS = [
     "accepted; the unchanged library keeps all); programs in which such an "
     "exception leaves the top function are outside the domain (no "
     "definition results)",
+    "argument objects (rates / prepend lists, variants / metadata dicts) "
+    "are values: a build may be handed an object that earlier builds were "
+    "handed and must treat it like a fresh equal one; a change of such an "
+    "object that no build can observe (zero padding of a rates list, number "
+    "-> one element list in a variant, extra metadata keys) is allowed",
+    "the synthdef decorator = constructor + add(): only used for programs "
+    "without repeated control names (the description library refuses those "
+    "with SynthDescError); its boot action is removed again by the harness",
     "positional arguments of SynthDef.__call__ name the controls of the "
     "definition's own function in declaration order (prepended parameters "
     "are not controls)",
@@ -103,7 +148,19 @@ MIN_COUNTERS = {
               'controls_declared_after_a_failed_body': 3000,
               'controls_of_failed_bodies': 3000,
               'failed_bodies_passing_through_a_wrapped_function': 100,
-              'failed_bodies_raised_by_library_call': 300},
+              'failed_bodies_raised_by_library_call': 300,
+              'sessions': 500, 'session_builds': 1400,
+              'session_builds/decorator': 300,
+              'session_builds/positional': 300,
+              'argument_objects_audited': 4000,
+              'shared_rates_lists': 500,
+              'shared_rates_entries_first_read_by_a_later_longer_function': 200,
+              'shared_rates_longer_function_before_shorter': 350,
+              'shared_rates_lists_used_by_several_builds': 400,
+              'shared_rates_lists_used_several_times_in_one_build': 300,
+              'shared_rates_lists_used_by_constructor_and_wrap': 350,
+              'shared_prepend_lists': 120, 'shared_variants_dicts': 250,
+              'shared_metadata_dicts': 250, 'shared_default_tuples': 250},
     'thorough': {'programs_decoded': 60000, 'sinks_checked': 300000,
                  'name_entries_checked': 300000, 'lag_inputs_checked': 30000,
                  'variant_blocks_checked': 10000, 'calls_checked': 50000,
@@ -117,15 +174,35 @@ MIN_COUNTERS = {
                  'controls_declared_after_a_failed_body': 70000,
                  'controls_of_failed_bodies': 50000,
                  'failed_bodies_passing_through_a_wrapped_function': 2500,
-                 'failed_bodies_raised_by_library_call': 5000},
+                 'failed_bodies_raised_by_library_call': 5000,
+                 'sessions': 10000, 'session_builds': 28000,
+                 'session_builds/decorator': 6000,
+                 'session_builds/positional': 6000,
+                 'argument_objects_audited': 80000,
+                 'shared_rates_lists': 10000,
+                 'shared_rates_entries_first_read_by_a_later_longer_function':
+                     4000,
+                 'shared_rates_longer_function_before_shorter': 7000,
+                 'shared_rates_lists_used_by_several_builds': 8000,
+                 'shared_rates_lists_used_several_times_in_one_build': 6000,
+                 'shared_rates_lists_used_by_constructor_and_wrap': 7000,
+                 'shared_prepend_lists': 2500, 'shared_variants_dicts': 5000,
+                 'shared_metadata_dicts': 5000, 'shared_default_tuples': 5000},
 }
 
 
 def plan(tier, seed):
-    total, parts, secs = (40000, 12, 35) if tier == 'quick' else (3000000, 16, 540)
-    return [{'name': f'sig{p}', 'mode': 'nrt', 'kind': 'sig', 'first_case': f,
-             'n': n, 'secs': secs, 'hard_timeout': secs + 150}
-            for p, (f, n) in enumerate(split(total, parts))]
+    total, parts, secs = (40000, 12, 35) if tier == 'quick' else (3000000, 13, 540)
+    shards = [{'name': f'sig{p}', 'mode': 'nrt', 'kind': 'sig', 'first_case': f,
+               'n': n, 'secs': secs, 'hard_timeout': secs + 150}
+              for p, (f, n) in enumerate(split(total, parts))]
+    # sessions: several builds sharing their argument objects
+    total, parts, secs = (12000, 4, 30) if tier == 'quick' else (600000, 3, 540)
+    shards += [{'name': f'shared{p}', 'mode': 'nrt', 'kind': 'shared',
+                'first_case': f, 'n': n, 'secs': secs,
+                'hard_timeout': secs + 150}
+               for p, (f, n) in enumerate(split(total, parts))]
+    return shards
 
 
 class UserError(Exception):
@@ -147,7 +224,8 @@ def exc_site(e):
 
 class Harness:
     def __init__(self):
-        from sc3.synth.synthdef import SynthDef
+        from sc3.synth.synthdef import SynthDef, synthdef
+        from sc3.base import systemactions as sac
         from sc3.synth.ugens import inout as iou, oscillators as ocl
         from sc3.synth import ugen as ugn
         from sc3.synth.spec import ControlSpec
@@ -155,16 +233,20 @@ class Harness:
         from vf import scgf
         self.SynthDef, self.iou, self.ocl, self.ugn = SynthDef, iou, ocl, ugn
         self.ControlSpec, self.main, self.scgf = ControlSpec, main, scgf
+        self.synthdef, self.sac = synthdef, sac
 
 
 def run_shard(spec, acc):
     import logging
     logging.disable(logging.CRITICAL)
     H = Harness()
+    kind = spec['shard'].get('kind', 'sig')
     for i in iter_cases(spec):
-        rng = case_rng(spec['seed'], 'C04', 'sig', i)
-        prog = G.gen_program(rng, i)
-        run_case(acc, H, i, prog)
+        rng = case_rng(spec['seed'], 'C04', kind, i)
+        if kind == 'shared':
+            run_session(acc, H, i, G.gen_session(rng, i))
+        else:
+            run_case(acc, H, i, G.gen_program(rng, i))
 
 
 class Collector:
@@ -316,14 +398,287 @@ def run_case(acc, H, i, prog):
                            'len_with': len(b), 'len_without': len(b2)})
 
 
-def eval_prog(acc, H, i, prog):
-    """build, decode and check one program; -> definition bytes or None"""
+# ---------------------------------------------------------------------------
+# sessions: builds that share their argument objects
+
+KIND_NAMES = {'R': 'rates-list', 'P': 'prepend-list', 'V': 'variants-dict',
+              'M': 'metadata-dict', 'T': 'default-tuple'}
+
+
+def _num(x):
+    """numbers by value (2 and 2.0 say the same)"""
+    if isinstance(x, (int, float)) and not isinstance(x, bool):
+        return float(x)
+    if isinstance(x, (list, tuple)):
+        return [_num(y) for y in x]
+    return x
+
+
+def rates_meaning(rates):
+    """what a rates list says, entry by entry: None, 0 and 0.0 all mean
+    "no rate name, no lag", and so does a missing entry at the end"""
+    out = [None if e is None or (isinstance(e, (int, float))
+                                 and not isinstance(e, bool) and e == 0)
+           else _num(e) for e in rates]
+    while out and out[-1] is None:
+        out.pop()
+    return out
+
+
+class Pool:
+    """the run-time argument objects of one session, each created ONCE from a
+    deep copy of its description, together with a snapshot taken before the
+    first use"""
+
+    def __init__(self, H, shared):
+        import copy
+        self.objs, self.kind, self.before = {}, {}, {}
+        for sid, sh in shared.items():
+            kind, val = sh['kind'], copy.deepcopy(sh['value'])
+            if kind == 'P':
+                val = [pv[1] for pv in val]
+            elif kind == 'M':
+                val = {'specs': {n: H.ControlSpec(-30000, 30000, default=v)
+                                 for n, v in val.items()}}
+            elif kind == 'T':
+                val = tuple(val)
+            self.objs[sid], self.kind[sid] = val, kind
+            self.before[sid] = self.snapshot(sid)
+        self.reported = set()
+
+    def snapshot(self, sid):
+        """(state, meaning): the exact state of the object and what it says
+        as an argument of a build"""
+        import copy
+        obj, kind = self.objs[sid], self.kind[sid]
+        if kind == 'M':
+            # metadata is the user's dictionary: what a build reads from it
+            # are the defaults of the specs
+            specs = obj.get('specs') if isinstance(obj, dict) else None
+            if not isinstance(specs, dict):
+                return (repr(obj)[:200], None)
+            names = list(specs)
+            defaults = [getattr(o, 'default', None) for o in specs.values()]
+            return ((list(obj), names, [id(o) for o in specs.values()],
+                     defaults), sorted(zip(names, map(repr, defaults))))
+        if kind == 'P':
+            st = [(id(x), repr(x)) for x in obj]
+            return (st, st)
+        if kind == 'R':
+            return (copy.deepcopy(obj), rates_meaning(obj))
+        if kind == 'V':
+            # a number and a one element list say the same
+            try:
+                m = [(vn, [(cn, _num(v) if isinstance(v, (list, tuple))
+                            else [_num(v)]) for cn, v in pairs.items()])
+                     for vn, pairs in obj.items()]
+            except Exception:
+                m = None
+            return (repr(obj), m)
+        return (repr(obj), repr(obj))
+
+    def spec_defaults(self, sid):
+        b = self.before[sid][0]
+        return dict(zip(b[1], b[3]))
+
+    def tuples(self):
+        return {sid: o for sid, o in self.objs.items() if self.kind[sid] == 'T'}
+
+    def audit(self, acc):
+        """-> [(object id, kind, how, before, after)] for every object whose
+        MEANING as an argument is no longer what it was before the first use
+        (each object once).  A change of the object that leaves its meaning
+        alone is counted, not reported - no later build can tell the
+        difference: a rates list that gained entries meaning "nothing" (the
+        unchanged library pads the caller's list with 0 up to the number of
+        parameters), a variant value turned into a one element list, further
+        keys in the metadata dictionary."""
+        out = []
+        for sid, obj in self.objs.items():
+            if sid in self.reported:
+                continue
+            acc.count('argument_objects_audited')
+            kind = self.kind[sid]
+            before, meant = self.before[sid]
+            now, means = self.snapshot(sid)
+            if repr(now) == repr(before):
+                continue
+            if repr(means) == repr(meant):
+                acc.count('argument_objects_changed_in_place_same_meaning/'
+                          + KIND_NAMES[kind])
+                continue
+            how = 'changed'
+            if kind == 'R':
+                a, b = meant, means
+                how = 'entries-lost' if repr(a[:len(b)]) == repr(b) else \
+                    'entries-added' if repr(b[:len(a)]) == repr(a) else \
+                    'entries-changed'
+            self.reported.add(sid)
+            out.append((sid, kind, how, repr(before)[:300], repr(now)[:300]))
+        return out
+
+
+def session_use_counters(acc, progs, shared):
+    """which histories of a shared rates list the session contains"""
+    uses = {}
+    for k, prog in enumerate(progs):
+        for fname in MC.invocation_order(prog):
+            f = prog['funcs'][fname]
+            if 'rates_obj' in f:
+                uses.setdefault(f['rates_obj'], []).append(
+                    (k, fname == prog['top'], len(f['params']) - f['prepend']))
+    for sid, us in uses.items():
+        if len(us) < 2:
+            continue
+        acc.count('shared_rates_lists')
+        acc.count('shared_rates_list_uses', len(us))
+        if len({k for k, _, _ in us}) > 1:
+            acc.count('shared_rates_lists_used_by_several_builds')
+        if len({k for k, _, _ in us}) < len(us):
+            acc.count('shared_rates_lists_used_several_times_in_one_build')
+        if len({top for _, top, _ in us}) > 1:
+            acc.count('shared_rates_lists_used_by_constructor_and_wrap')
+        m = rates_meaning(shared[sid]['value'])
+        ln = len(shared[sid]['value'])
+        seen = None
+        for _, _, n in us:
+            if seen is not None and n > seen and any(
+                    e is not None for e in m[seen:n]):
+                acc.count('shared_rates_entries_first_read_by_a_later_'
+                          'longer_function')
+                break
+            seen = n if seen is None else max(seen, n)
+        if any(a[2] > b[2] for a, b in zip(us, us[1:])):
+            acc.count('shared_rates_longer_function_before_shorter')
+        if any(n < ln for _, _, n in us[:-1]):
+            acc.count('shared_rates_list_longer_than_an_earlier_function')
+        if any(n > ln for _, _, n in us[:-1]):
+            acc.count('shared_rates_list_shorter_than_an_earlier_function')
+    other = {}
+    for prog in progs:
+        for key in ('variants_obj', 'metadata_obj'):
+            if key in prog:
+                other.setdefault(prog[key], []).append(1)
+        for f in prog['funcs'].values():
+            if 'prepend_obj' in f:
+                other.setdefault(f['prepend_obj'], []).append(1)
+            if 'alias_of' in f:
+                continue
+            for p in f['params']:
+                if p.get('default_obj'):
+                    other.setdefault(p['default_obj'], []).append(1)
+    for sid, us in other.items():
+        if len(us) >= 2:
+            acc.count({'P': 'shared_prepend_lists', 'V': 'shared_variants_dicts',
+                       'M': 'shared_metadata_dicts',
+                       'T': 'shared_default_tuples'}[shared[sid]['kind']])
+            acc.count('shared_object_uses/' + KIND_NAMES[shared[sid]['kind']],
+                      len(us))
+
+
+def run_session(acc, H, i, sess):
+    """Builds of DIFFERENT signatures that are handed the SAME argument
+    objects.  Every build is decided by the model from the program
+    description (= the value every object had before its first use).  After
+    every build every object is compared with its snapshot.
+      C04/argument-object-changed/<kind>/<how>   a build changed what an
+            argument object of the caller says (witness: the later builds of
+            the session that came out wrong because of it)
+      C04/shared-argument-objects/<what>   a build is wrong after earlier
+            builds used the same objects, right when built alone from fresh
+            equal objects, and no object changed (state kept elsewhere)
+    A violation that the build from fresh objects shows too keeps its key."""
+    progs, shared = sess['programs'], sess['shared']
+    pool = Pool(H, shared)
+    acc.count('sessions')
+    session_use_counters(acc, progs, shared)
+    mutations, late = [], []
+    for k, prog in enumerate(progs):
+        c = Collector(acc, False)
+        try:
+            eval_prog(c, H, i, prog, pool)
+        except Exception:
+            if not mutations:
+                raise
+            break       # the harness stumbled over an object already reported
+        acc.count('session_builds')
+        acc.count('session_builds/' + prog['entry'])
+        viols = c.viols
+        if cleanly_rejected(viols) and any(
+                p['default'][0] == 'invalid'
+                for f in prog['funcs'].values() for p in f['params']):
+            acc.count('odd_default_rejected_no_verdict')
+            viols = []
+        mutations += [(k, m) for m in pool.audit(acc)]
+        if viols:
+            late.append((k, prog, viols))
+    if not mutations and not late:
+        acc.count('sessions_without_finding')
+        return
+    context = {'case': i,
+               'session': [G.describe(p) for p in progs],
+               'shared_objects': {sid: (KIND_NAMES[sh['kind']], sh['value'])
+                                  for sid, sh in shared.items()}}
+    own = []
+    for k, prog, viols in late:
+        c2 = Collector(acc, True)
+        eval_prog(c2, H, i, prog, None)
+        plain = {key for key, _ in c2.viols}
+        rest = []
+        for key, wit in viols:
+            if key in plain:
+                acc.violation(key, wit)     # wrong without any history too
+            else:
+                rest.append((key, wit))
+        if rest:
+            own.append((k, sorted(rest, key=lambda kw: fb_rank(kw[0]))))
+    consequences = [(k, sorted({key for key, _ in rest})) for k, rest in own]
+    seen = set()
+    for k, (sid, kind, how, before, now) in mutations:
+        key = f'C04/argument-object-changed/{KIND_NAMES[kind]}/{how}'
+        if key in seen:
+            continue
+        seen.add(key)
+        w = dict(context)
+        w.update(object=sid, changed_by_build=k, before=before, after=now,
+                 later_builds_wrong=consequences)
+        acc.violation(key, w)
+    if not mutations and own:
+        k, rest = own[0]
+        key, wit = rest[0]
+        w = dict(wit)
+        w.update(context)
+        w.update(build_in_session=k, key_without_context=key,
+                 all_keys=consequences)
+        # one key per kind of damage (the details are in the witness)
+        acc.violation('C04/shared-argument-objects/' + key.split('/')[1], w)
+
+
+def eval_prog(acc, H, i, prog, pool=None):
+    """build, decode and check one program; -> definition bytes or None.
+    pool: the argument objects of a session (class Pool); entries of the
+    program that name one of them hand THAT object to the library, everything
+    else (and everything when pool is None) is a fresh copy of the
+    description.  The model only ever reads the description."""
+    import copy
+
+    def shared(owner, key):
+        sid = owner.get(key) if pool is not None else None
+        return None if sid is None else pool.objs[sid]
+
     # metadata specs are real ControlSpec objects; the model uses the default
-    # read back from the object
-    specs_obj = {n: H.ControlSpec(-30000, 30000, default=v)
-                 for n, v in prog['specs'].items()}
+    # read back from the object (for a shared metadata dict: read back when
+    # the object was created)
     prog_m = dict(prog)
-    prog_m['specs'] = {n: o.default for n, o in specs_obj.items()}
+    metadata = shared(prog, 'metadata_obj')
+    if metadata is not None:
+        prog_m['specs'] = pool.spec_defaults(prog['metadata_obj'])
+    else:
+        specs_obj = {n: H.ControlSpec(-30000, 30000, default=v)
+                     for n, v in prog['specs'].items()}
+        prog_m['specs'] = {n: o.default for n, o in specs_obj.items()}
+        if specs_obj:
+            metadata = {'specs': specs_obj}
     lay = MC.layout(prog_m)
     slots = lay['slots']
     tags = {n: 50000 + k for k, n in enumerate(lay['order'])}
@@ -385,12 +740,17 @@ def eval_prog(acc, H, i, prog):
                 else:
                     vals.append(H.ocl.SinOsc.ar(333))
             pending_prepend[child] = vals
-            rates = None if c['rates'] is None else list(c['rates'])
+            rates = shared(c, 'rates_obj')
+            if rates is None and c['rates'] is not None:
+                rates = copy.deepcopy(c['rates'])
+            plist = shared(c, 'prepend_obj')
+            if plist is None:
+                plist = list(vals)
             fn = ns[c.get('alias_of', child)]
             st['next_fn'] = child
             try:
                 if vals or c['prepend']:
-                    H.SynthDef.wrap(fn, rates, list(vals))
+                    H.SynthDef.wrap(fn, rates, plist)
                 elif rates is None:
                     H.SynthDef.wrap(fn)
                 else:
@@ -452,7 +812,9 @@ def eval_prog(acc, H, i, prog):
         return None
 
     ns['__body__'] = body
-    src = G.source(prog)
+    if pool is not None:
+        ns.update(pool.tuples())
+    src = G.source(prog, define_shared=pool is None)
     exec(compile(src, f'<c04 case {i}>', 'exec'), ns)
     has_fb = any(f.get('body_fails') for f in funcs.values())
     catch_points, guards = {}, set()
@@ -472,13 +834,19 @@ def eval_prog(acc, H, i, prog):
     pending_prepend[prog['top']] = top_prepend
     kwargs = {}
     if top['rates'] is not None:
-        kwargs['rates'] = list(top['rates'])
+        kwargs['rates'] = shared(top, 'rates_obj')
+        if kwargs['rates'] is None:
+            kwargs['rates'] = copy.deepcopy(top['rates'])
     if top_prepend:
-        kwargs['prepend'] = list(top_prepend)
+        kwargs['prepend'] = shared(top, 'prepend_obj')
+        if kwargs['prepend'] is None:
+            kwargs['prepend'] = list(top_prepend)
     if prog['variants']:
-        kwargs['variants'] = {k: dict(v) for k, v in prog['variants'].items()}
-    if specs_obj:
-        kwargs['metadata'] = {'specs': specs_obj}
+        kwargs['variants'] = shared(prog, 'variants_obj')
+        if kwargs['variants'] is None:
+            kwargs['variants'] = copy.deepcopy(prog['variants'])
+    if metadata is not None:
+        kwargs['metadata'] = metadata
 
     desc = G.describe(prog)
     nontriv = G.nontrivial(prog, lay)
@@ -491,8 +859,28 @@ def eval_prog(acc, H, i, prog):
         w.update(kw)
         acc.violation(key, w)
 
+    entry = prog.get('entry', 'keywords')
     try:
-        sd = H.SynthDef(prog['name'], ns[prog['top']], **kwargs)
+        if entry == 'positional':
+            args = [kwargs.get(k) for k in
+                    ('rates', 'prepend', 'variants', 'metadata')]
+            while args and args[-1] is None:
+                args.pop()
+            sd = H.SynthDef(prog['name'], ns[prog['top']], *args)
+        elif entry == 'decorator':
+            # the definition is named after the function; the decorator also
+            # adds it to the description library and registers a boot action
+            # (removed again: it would keep every definition alive)
+            H.main.reset()      # add() writes /d_recv into the NRT score
+            had = set(H.sac.ServerBoot._servers.get('all', ()))
+            try:
+                sd = H.synthdef(**kwargs)(ns[prog['top']]) if kwargs \
+                    else H.synthdef(ns[prog['top']])
+            finally:
+                for a in set(H.sac.ServerBoot._servers.get('all', ())) - had:
+                    H.sac.ServerBoot.remove('all', a)
+        else:
+            sd = H.SynthDef(prog['name'], ns[prog['top']], **kwargs)
     except Exception as e:
         H.main._current_synthdef = None
         viol(f'C04/build-raises/{exc_site(e)}', exception=short_tb(e))
